@@ -762,7 +762,9 @@ def conf_case(draw, faults: bool):
             s["manifest"] = m
         steps.append(s)
     return {"steps": steps, "fault_step": draw(st.integers(0, n - 1)) if faults else None,
-            "phase": draw(st.integers(0, 63))}
+            "phase": draw(st.integers(0, 63)),
+            # half of the fault cases hit the very first write of the files (previous version = no file at all)
+            "fresh": bool(faults and draw(st.booleans()))}
 
 
 def _load_instance(path):
@@ -826,6 +828,13 @@ def check_conf(case, ctx: Ctx):
                 update = (lambda: conf._generate_instance_files(True, True, errs))
             expected_new = None
             if case.get("fault_step") == i:
+                if case.get("fresh"):
+                    # only the files this update (re)creates: store_unreplicated_flowir_to_disk writes the instance
+                    # description only, _generate_instance_files both files
+                    for t in (targets if s["how"] == "generate" else targets[:1]):
+                        if os.path.exists(t.path):
+                            os.remove(t.path)
+                    labels.add("conf:first-write")
                 _, expected_new = enumerate_faults(ctx, case, "conf", i, confdir, d, [C], update, targets,
                                                    case["steps"][:i + 1])
             _advance(update, confdir, expected_new)
